@@ -107,6 +107,34 @@ def sub_batch(draw, batch):
     return tuple(b[k:])
 
 
+def split_batches(draw, batch, k):
+    """k batch shapes whose broadcast is exactly `batch`: either one holder of the full shape at a RANDOM position and
+    sub_batch shapes for the others, or a complementary split in which every dimension of size > 1 is owned by some
+    component and the others may carry a 1 there (leading 1-dims of all but one component may be dropped)."""
+    batch = tuple(batch)
+    if not batch:
+        return [()] * k
+    if draw(st.integers(0, 2)) != 0:
+        h = draw(st.integers(0, k - 1))
+        return [batch if j == h else sub_batch(draw, batch) for j in range(k)]
+    shapes = [[1] * len(batch) for _ in range(k)]
+    for i, b in enumerate(batch):
+        owner = draw(st.integers(0, k - 1))
+        for j in range(k):
+            if j == owner or draw(st.booleans()):
+                shapes[j][i] = b
+    full = draw(st.integers(0, k - 1))  # this one keeps its full rank
+    out = []
+    for j, sh in enumerate(shapes):
+        if j != full:
+            d = 0
+            while d < len(sh) and sh[d] == 1 and draw(st.booleans()):
+                d += 1
+            sh = sh[d:]
+        out.append(tuple(sh))
+    return out
+
+
 def divisors(n):
     return [d for d in range(1, n + 1) if n % d == 0]
 
@@ -432,9 +460,9 @@ def mk_kron(draw, cfg, dom, m, n, batch, depth):
         ms = draw(st.sampled_from(_sq_factorizations(n, k)))
         ns = ms
     args = []
+    sbs = split_batches(draw, batch, len(ms))
     for i, (a, b_) in enumerate(zip(ms, ns)):
-        sb = batch if i == 0 else sub_batch(draw, batch)
-        args.append(gen(draw, cfg, dom, a, b_, sb, depth - 1))
+        args.append(gen(draw, cfg, dom, a, b_, sbs[i], depth - 1))
     return {"op": "Kronecker", "args": args}
 
 
@@ -521,10 +549,10 @@ def mk_lrrad(draw, cfg, dom, m, n, batch, depth):
 def mk_sum(draw, cfg, dom, m, n, batch, depth):
     k = draw(st.integers(2, 3))
     args = []
+    sbs = split_batches(draw, batch, k)
     for i in range(k):
-        sb = batch if i == 0 else sub_batch(draw, batch)
         sdom = dom if (i == 0 or dom != "pd") else "psd"
-        args.append(gen(draw, cfg, sdom, m, n, sb, depth - 1))
+        args.append(gen(draw, cfg, sdom, m, n, sbs[i], depth - 1))
     return {"op": "Sum", "args": args}
 
 
@@ -538,8 +566,9 @@ def mk_psdsum(draw, cfg, dom, m, n, batch, depth):
 @maker("Matmul", lambda c, d, m, n, b, comp, sq, nb: comp and d == "any")
 def mk_matmul(draw, cfg, dom, m, n, batch, depth):
     k = draw(st.integers(1, 4))
-    a = gen(draw, cfg, "any", m, k, batch, depth - 1)
-    b_ = gen(draw, cfg, "any", k, n, sub_batch(draw, batch), depth - 1)
+    sbs = split_batches(draw, batch, 2)
+    a = gen(draw, cfg, "any", m, k, sbs[0], depth - 1)
+    b_ = gen(draw, cfg, "any", k, n, sbs[1], depth - 1)
     return {"op": "Matmul", "args": [a, b_]}
 
 
